@@ -128,6 +128,23 @@ def perturb(rng, v):
     return w
 
 
+def swap_labels(v):
+    w = dict(v)
+    w["a_i"], w["b_i"], w["a_j"], w["b_j"] = v["a_j"], v["b_j"], v["a_i"], v["b_i"]
+    return w
+
+
+def ratio_neighbour(rng, v):
+    """same shapes, count and span; the two cavity rates replaced by a pair with the same geometric mean (or the
+    scale of the span when a rate is zero) and a ratio drawn log-uniformly from 1e-6 .. 1e6"""
+    w = dict(v)
+    bi, bj = v["b_i"], v["b_j"]
+    g = math.sqrt(bi * bj) if bi > 0 and bj > 0 else max(bi, bj, v["mu"])
+    r = 10.0 ** rng.uniform(-6.0, 6.0)
+    w["b_i"], w["b_j"] = g * math.sqrt(r), g / math.sqrt(r)
+    return w
+
+
 def rel(x, ref):
     return abs(x - ref) / abs(ref) if ref != 0 else (0.0 if x == 0 else math.inf)
 
@@ -146,12 +163,12 @@ class Oracle:
         e = abs(got - true) if absolute else rel(got, true)
         d = self.stats["acc"].setdefault(f"{name}.{comp}", dict(n_recorded=0, n_perturbed=0, over5_recorded=0,
                                                                  over5_perturbed=0, worst=0.0))
-        d["n_" + self.src] += 1
+        d["n_" + self.src] = d.get("n_" + self.src, 0) + 1
         d["worst"] = max(d["worst"], e)
         if not (e <= ACC):
-            d["over5_" + self.src] += 1
-            regime = ("shape<1" if small else "cancellation" if cancel else "marginal(<=10%)" if e <= HARD else "regular")
-            self.viol(f"accuracy>5%:{name}.{comp}:{self.src}:{regime}",
+            d["over5_" + self.src] = d.get("over5_" + self.src, 0) + 1
+            regime = ("cancellation" if cancel else "shape<1" if small else "marginal(<=10%)" if e <= HARD else "regular")
+            self.viol(f"accuracy>5%:{name}.{comp}:{regime}",
                       f"{name}{tuple(args)} ({self.src} EP vector): {comp} = {got!r}, quadrature {true!r} (error {e:.3g}, "
                       f"regime {regime})", name, args)
 
@@ -200,7 +217,7 @@ def one_vector(o, sec, v, res, mut=True):
 
     if sec == "rootward":
         tj, a_i, b_i = v["t_j"], v["a_i"], v["b_i"]
-        small = a_i < 1.0
+        small = a_i < 0.999
         pi, pij = [a_i - 1, b_i], [y, mu]
         args = [tj, a_i, b_i, y, mu]
         m = run("rootward_moments", args)
@@ -232,7 +249,7 @@ def one_vector(o, sec, v, res, mut=True):
                         o.acc("mutation_rootward_moments", "mn", mm[0], (tr[0] + tj) / 2, args, small)
     elif sec == "leafward":
         t_i, a_j, b_j = v["t_i"], v["a_j"], v["b_j"]
-        small = a_j < 1.0
+        small = a_j < 0.999
         pj, pij = [a_j - 1, b_j], [y, mu]
         args = [t_i, a_j, b_j, y, mu]
         m = run("leafward_moments", args)
@@ -258,7 +275,7 @@ def one_vector(o, sec, v, res, mut=True):
                         o.acc("mutation_leafward_moments", "mn", mm[0], (tr[0] + t_i) / 2, args, small)
     elif sec in ("moments", "unphased"):
         a_i, b_i, a_j, b_j = v["a_i"], v["b_i"], v["a_j"], v["b_j"]
-        small = min(a_i, a_j) < 1.0
+        small = min(a_i, a_j) < 0.999
         pi, pj, pij = [a_i - 1, b_i], [a_j - 1, b_j], [y, mu]
         args = [a_i, b_i, a_j, b_j, y, mu]
         if sec == "moments":
@@ -296,7 +313,7 @@ def one_vector(o, sec, v, res, mut=True):
                     # E[t_i] is computed as B/t - z E[t_j]: a relative error e of E[t_j] becomes kappa * e
                     kappa = (mu + b_j) / (mu + b_i) * tr[2] / tr[0]
                     o.acc("unphased_moments", "mn_i", m[1], tr[0], args, small,
-                          cancel=(kappa > 2 and rel(m[3], tr[2]) <= ACC))
+                          cancel=(kappa > 1 and rel(m[3], tr[2]) <= ACC))
                     o.acc("unphased_moments", "mn_j", m[3], tr[2], args, small)
                     res.nontrivial.add(common.canon_key(["unphased"] + [f2h(x) for x in args]))
             if mut and y >= 1:       # a dated mutation's block carries at least that mutation
@@ -310,7 +327,7 @@ def one_vector(o, sec, v, res, mut=True):
                         o.acc("mutation_unphased_moments", "mn", mm[1], trm[1], args, small)
     elif sec == "sideways":
         t_i, a_j, b_j = v["t_i"], v["a_j"], v["b_j"]
-        small = a_j < 1.0
+        small = a_j < 0.999
         pj, pij = [a_j - 1, b_j], [y, mu]
         args = [t_i, a_j, b_j, y, mu]
         m = run("sideways_moments", args)
@@ -365,13 +382,14 @@ def one_vector(o, sec, v, res, mut=True):
                     o.viol("closed-form-not-exact:mutation_block_projection", f"mutation_block_projection({t_i!r}, {t_j!r}): phase {pb[0]!r} mean {mn!r}", "mutation_block_projection", [t_i, t_j])
 
 
-def oracle_on_population(o, pop, rng, res):
+def oracle_on_population(o, pop, rng, res, nb_cap=40):
     """Every recorded vector and one perturbed neighbour of it through the clauses of its kernel."""
     reached = {}
     for name, vecs in sorted(pop["vectors"].items()):
         if name not in LAYOUT:
             continue
         reached[name] = len(vecs)
+        n_nb = 0
         for flat in vecs:
             v = to_vector(name, flat)
             if not all(math.isfinite(x) for x in v.values()):
@@ -381,6 +399,19 @@ def oracle_on_population(o, pop, rng, res):
             one_vector(o, SECTION[name], v, res, mut)
             o.src = "perturbed"
             one_vector(o, SECTION[name], perturb(rng, v), res, mut)
+            if SECTION[name] in ("moments", "unphased") and n_nb < nb_cap:
+                # both parents' cavities come from EP on real data and can belong to nodes of very different ages:
+                # neighbours with the two cavity rates in a ratio of 1e-6 .. 1e6, and (the unphased density is
+                # symmetric in its two parents) the same vectors with the labels i and j exchanged
+                n_nb += 1
+                w = ratio_neighbour(rng, v)
+                o.src = "ratio"
+                one_vector(o, SECTION[name], w, res, mut)
+                if SECTION[name] == "unphased":
+                    o.src = "swapped"
+                    one_vector(o, "unphased", swap_labels(v), res, mut)
+                    o.src = "ratio-swapped"
+                    one_vector(o, "unphased", swap_labels(w), res, mut)
     # the block kernel between two fixed parents is reached only with unphased singletons below two fixed nodes:
     # when the recorded runs did not reach it, exercise its closed form on pairs of recorded fixed ages
     ages = [f[0] for n in ("rootward_projection", "leafward_projection", "sideways_projection") for f in pop["vectors"].get(n, []) if f[0] > 0]
@@ -470,7 +501,16 @@ def run(ctx):
     import tsdate  # noqa: F401
     # ---- B
     cases = kc.make_cases(ctx, ctx.n(40, 1500), names=C18_KERNELS)
-    reals, models, fails, stats = kc.correspondence(ctx, cases)
+    try:
+        reals, models, fails, stats = kc.correspondence(ctx, cases)
+    except Exception as e:      # e.g. the driver does not build; stage C below must still run
+        reals, models, fails, stats = [("raise", "")] * len(cases), [None] * len(cases), [], {}
+        res.corr_failures.append(Violation("kernel-correspondence-not-run", f"stage B could not run: {type(e).__name__}: {str(e)[:200]}",
+                                           dict(kind="none"), stage="B"))
+    if kc.TRANSLATION_ERROR:
+        res.corr_failures.append(Violation("kernel-translation-failed",
+                                           f"source is outside the translator's subset ({kc.TRANSLATION_ERROR[:200]}); stage B ran "
+                                           "against the last committed translation", dict(kind="none"), stage="B"))
     res.corr_failures += fails
     res.evaluations += len(cases)
     for c, r, m in zip(cases, reals, models):
@@ -492,7 +532,7 @@ def run(ctx):
     if worst_int > 1e-8:
         raise RuntimeError(f"quadrature oracle disagrees with mpmath.quad by {worst_int:.2e}")
     pop = record_population(ctx)
-    reached = oracle_on_population(o, pop, rng, res)
+    reached = oracle_on_population(o, pop, rng, res, nb_cap=ctx.n(40, 600))
     for name, vecs in sorted(pop["vectors"].items())[:3]:
         if vecs:
             res.sample(dict(kernel=name, recorded_args=[repr(x) for x in vecs[0]]))
